@@ -302,12 +302,30 @@ def run(ctx):
             ctx.handle_cex(rec['name'], 'C06.wrappers.native', None, lambda _m: {'replayed': True, 'detail': 'real wait wrappers: %s' % bad[:3], 'replay': {'which': 'wrappers'}}, rec)
     except RuntimeError as e:
         ctx.inconclusive.append('wrappers native battery unavailable: %s' % str(e)[-300:])
+    # the exit clean-up reaches Stopped and wakes the waiters even when one of its steps unwinds (user Drop panics inside it)
+    import C06_guard
+    import C06_guard_replay
+    C06_guard.check(ctx, lc.load()[0])
+    try:
+        res = C06_guard_replay.battery()
+        ctx.translator_validated += len(res)
+        badg = [r for r in res if r['violated']]
+        ctx.extra['guard_native_battery'] = res
+        if badg:
+            rec = {'name': 'guard.native_battery', 'group': 'C06.guard', 'solver_s': 0.0, 'status': 'cex'}
+            ctx.obligations.append(rec)
+            ctx.handle_cex(rec['name'], 'C06.guard.native', None, lambda _m: {'replayed': True, 'detail': 'real actor whose final state panics on drop: %s' % badg[:3], 'replay': {'which': 'guard'}}, rec)
+    except RuntimeError as e:
+        ctx.inconclusive.append('guard native battery unavailable: %s' % str(e)[-300:])
 
 
 def replay_file(path):
     import json
     import C06_replay
     d = json.load(open(path))
+    if (d.get('replay') or {}).get('which') == 'guard':
+        import C06_guard_replay
+        return C06_guard_replay.replay_from_json(d)
     if (d.get('replay') or {}).get('which') == 'wrappers':
         import C06_wrappers_replay
         r = C06_wrappers_replay.replay()
